@@ -227,6 +227,8 @@ def audit(xform):
         elif ref not in paths:
             probs.append(f"{what} {ref!r} names no node of the primary instance")
     binds = [b.get("nodeset") for b in model.iter(X + "bind")]
+    if None in binds:
+        probs.append(f"{binds.count(None)} bind element(s) carry no nodeset: they refer to no node at all")
     for b in binds:
         resolve(b, "bind nodeset")
     if len(set(binds)) != len(binds):
@@ -242,6 +244,8 @@ def audit(xform):
             continue
         tag = e.tag.split("}")[-1]
         if tag in ("input", "trigger", "select", "select1", "upload", "range", "rank"):
+            if e.get("ref") is None and e.get("query") is None:
+                probs.append(f"a {tag} control carries no ref: it refers to no node at all")
             resolve(e.get("ref"), f"{tag} ref")
             crefs.append(e.get("ref"))
         elif tag == "group" and e.get("ref") is not None:
